@@ -153,6 +153,17 @@ theorem event_preserves_inv (s s' : DbgState) (e : Event) (h : Inv s) (he : appl
       · intro f hfm; cases hfm
       · exact hf p hp
   | setRefs => simp only [applyEvent] at he; cases he; exact ⟨⟨hf, hs⟩, hl⟩
+  | setLockingState => simp only [applyEvent] at he; cases he; exact ⟨⟨hf, hs⟩, hl⟩
+  | stopThreads =>
+    simp only [applyEvent] at he; cases he
+    refine ⟨⟨hf, ?_⟩, hl⟩
+    intro p hp
+    simp only [List.mem_map] at hp
+    obtain ⟨q, hq, rfl⟩ := hp
+    have hg := hs q hq
+    split
+    · exact hg
+    · exact ⟨hg.1, hg.2⟩
   | source src => simp only [applyEvent] at he; cases he; exact ⟨⟨hf, hs⟩, hl⟩
   | setGlobals names => simp only [applyEvent] at he; cases he; exact ⟨⟨hf, hs⟩, hl⟩
   | finish tid =>
